@@ -30,6 +30,31 @@ def main():
         enumerate_cuts = staticmethod(capture)
 
     sub.mw = _MW  # observe the cut family the enumerator supplied (first call only)
+    # observe (from outside) the truth tables with don't-cares the function derives for the cones it hands to
+    # the synthesiser, together with the circuit they were derived from (the working copy at that moment)
+    cones = []
+    cur = {}
+    real_dc = sub._eval_dont_cares
+
+    def dc_wrapper(circuit, subcircuits, *a, **k):
+        cur['c'] = circuit
+        return real_dc(circuit, subcircuits, *a, **k)
+
+    sub._eval_dont_cares = dc_wrapper
+    real_tt = sub._Subcircuit.evaluate_truth_table_with_dont_cares
+
+    def tt_wrapper(self_):
+        table = real_tt(self_)
+        try:
+            if len(cones) < 6 and 'c' in cur and len(cur['c'].gates) <= 24 and not out.get('first'):
+                code = lambda v: 1 if v is True else 0 if v is False else 2
+                cones.append({'cur': project(cur['c'], users=False, blocks=False), 'ins': list(self_.inputs), 'outs': list(self_.outputs),
+                              'table': [[code(v) for v in row] for row in table]})
+        except Exception:
+            pass
+        return table
+
+    sub._Subcircuit.evaluate_truth_table_with_dont_cares = tt_wrapper
     ni, gs = src['net']
     import random as _random
 
@@ -79,6 +104,7 @@ def main():
             out['stmt'] = ' '.join((frames[-1].line or '').split())
             out['chain'] = [f.name for f in frames][-4:]
     out['cuts'] = captured.get('cuts', {})
+    out['cones'] = cones
     print(json.dumps(out))
 
 
